@@ -18,14 +18,14 @@ CLAIMED = {
 
 CLAIMED['C08'] = dict(
     category='other',
-    text='Static shape analysis over rustc MIR of the five places where tile geometry is computed, with index arithmetic compared as polynomials over atomic terms (so association, commutation, casts and temporaries are irrelevant; only which quantity multiplies which, and which axis meets which dimension, matters). Decided for all inputs: Tilemap::tile reads tiles[(y-oy)*W + (x-ox)] exactly inside 0<=x-ox<W, 0<=y-oy<H and otherwise returns the static EMPTY_TILE whose id is 0; the logical size is the per-axis rounded-up quotient of the canvas and the handle\'s own tileset; tile offsets are the cel position divided per axis by the tile size; tile_image(i) is the i-th block of tw*th pixels as a tw x th image and Tileset::image is all blocks in stored order with height th*count; the tilemap rasteriser blends pixel py*tw+px of tile_slice(tile(tx,ty).id) onto (cel.x+tx*tw+px, cel.y+ty*th+py) with the layer x cel opacity, TilemapData::tile reads tiles[y*W+x], tile_slice cuts pixels[ppt*id .. +ppt], Tilemap::image is its cel\'s image; nothing but the per-pixel clip test (or a cull of tiles lying wholly outside the canvas) decides whether a pixel is drawn; and the checked arithmetic of these functions cannot wrap (same discharge rows as C04/C05/C16). NOT decided (and said so in the evidence): numerical agreement of lookup and image when the cel offset is not a multiple of the tile size (truncating division on negative offsets), and pixel values.',
+    text='Static shape analysis over rustc MIR of the five places where tile geometry is computed, with index arithmetic compared as polynomials over atomic terms (so association, commutation, casts and temporaries are irrelevant; only which quantity multiplies which, and which axis meets which dimension, matters). Decided for all inputs: Tilemap::tile reads tiles[(y-oy)*W + (x-ox)] exactly inside 0<=x-ox<W, 0<=y-oy<H and otherwise returns the static EMPTY_TILE whose id is 0; the logical size is the per-axis rounded-up quotient of the canvas and the handle\'s own tileset; tile offsets are the cel position divided per axis by the tile size; tile_image(i) is the i-th block of tw*th pixels as a tw x th image and Tileset::image is all blocks in stored order with height th*count; the tilemap rasteriser blends pixel py*tw+px of tile_slice(tile(tx,ty).id) onto (cel.x+tx*tw+px, cel.y+ty*th+py) with the layer x cel opacity, TilemapData::tile reads tiles[y*W+x], tile_slice cuts pixels[ppt*id .. +ppt], Tilemap::image is its cel\'s image (delegation chain Tilemap::image -> Cel::image -> layer_image, drawn whenever the cel exists, image handed on untouched), the tileset chunk is read and stored as the spec table says; nothing but the per-pixel clip test (or a cull of tiles lying wholly outside the canvas) decides whether a pixel is drawn; and the checked arithmetic of these functions cannot wrap (same discharge rows as C04/C05/C16). NOT decided (and said so in the evidence): numerical agreement of lookup and image when the cel offset is not a multiple of the tile size (truncating division on negative offsets), and pixel values.',
     design_ref='DESIGN.md section 13 (supersedes the not-applicable entry of section 4/6 for C08)',
     note='Trusted: rustc MIR, the driver, the row-major contract of image::ImageBuffer::from_raw, Iterator::skip/take and slice indexing. Width safety of the arithmetic is C04/C05/C16, not this check. Accepted spellings of the rounded-up quotient: (p + t - 1) / t in any association, or p.div_ceil(t).',
     technique='static analysis: MIR provenance terms normalised to polynomials over atoms, guard/dominance inspection (custom rustc_private driver)')
 
 CLAIMED['C09'] = dict(
     category='other',
-    text='Static shape + provenance analysis over rustc MIR of the three functions that carry the property. compute_parents: one table entry per layer (enumerate over the whole slice, one push per iteration), the entry is None exactly under child_level == 0, otherwise the result of a last-match search (rposition) over the layers before it (take(id)) whose predicate is candidate.child_level < own child_level - by the documented meaning of rposition the nearest preceding layer with a smaller level, hence a lower id; no candidate is a ?-propagated error. Layer::parent() returns that entry for its own id; the level compared is the unnarrowed 16-bit file field. An explicit descending search loop with first-match break and a `parent.is_none() -> Err` check is accepted as a second spelling of the search. Layer::is_visible returns false only after a failed VISIBLE test of a member of the chain self, parent, grandparent, ... and true only at a member with no parent whose own test passed, the chain being loop-carried through the parents table (unbounded). frame_image draws a cel only under is_visible() of its layer. Decided for all level sequences because it is the shape of the search, not a sample of its results.',
+    text='Static shape + provenance analysis over rustc MIR of the three functions that carry the property. compute_parents: one table entry per layer (enumerate over the whole slice, one push per iteration), the entry is None exactly under child_level == 0, otherwise the result of a last-match search (rposition) over the layers before it (take(id)) whose predicate is candidate.child_level < own child_level - by the documented meaning of rposition the nearest preceding layer with a smaller level, hence a lower id; no candidate is a ?-propagated error. Layer::parent() returns that entry for its own id; the level compared is the unnarrowed 16-bit file field, the layer chunk (incl. the flags word that carries the visible bit) is read and stored as the spec table says, and the layer-count cap rejects only more than 65536 layers. An explicit descending search loop with first-match break and a `parent.is_none() -> Err` check is accepted as a second spelling of the search. Layer::is_visible returns false only after a failed VISIBLE test of a member of the chain self, parent, grandparent, ... and true only at a member with no parent whose own test passed, the chain being loop-carried through the parents table (unbounded). frame_image draws a cel only under is_visible() of its layer. Decided for all level sequences because it is the shape of the search, not a sample of its results.',
     design_ref='DESIGN.md section 13 (supersedes the not-applicable entry of section 4/6 for C09)',
     note='Trusted: rustc MIR, the driver, the documented semantics of Iterator::enumerate/take/rposition (not analysed). The rule recognises the rposition form of the search and the loop (strongly) / recursive / iterator (weakly: unbounded walk + VISIBLE flag) forms of is_visible; a rewrite into a different algorithm is reported as an unrecognised form.',
     technique='static analysis: MIR provenance terms, closure-body inspection, dominance/guards (custom rustc_private driver)')
@@ -39,30 +39,30 @@ CLAIMED['C18'] = dict(
 
 CLAIMED['C15'] = dict(
     category='other',
-    text='Static switch-table extraction + error-discipline analysis over rustc MIR: for each documented refusal (colour depth, pixel ratio, layer type, blend mode, cel type, animation direction, colour-profile type/ICC/gamma flag, bits per tile, tilesets without pixels, chunk type) the accepted constant set is read off the branch, the remaining edge is shown to return Err on every path, the decoder call is shown to dominate the construction of the decoded structure, and its Result is shown to be ?-propagated up to read_aseprite; every fallible call site in the loader cone is checked for dropped errors. Holds for all inputs because it is a property of the branch structure, not of sampled files.',
+    text='Static switch-table extraction + error-discipline analysis over rustc MIR: for each documented refusal (colour depth, pixel ratio, layer type, blend mode, cel type, animation direction, colour-profile type/ICC/gamma flag, bits per tile, tilesets without pixels, chunk type) the field is read at its spec position and full width (layout comparison of the refusing decoders; the matcher argument is the whole field, not narrowed), every chunk of a frame reaches the dispatch (chunk-count rule), the accepted constant set is read off the branch, the remaining edge is shown to return Err on every path, the decoder call is shown to dominate the construction of the decoded structure, and its Result is shown to be ?-propagated up to read_aseprite; every fallible call site in the loader cone is checked for dropped errors. Holds for all inputs because it is a property of the branch structure, not of sampled files.',
     design_ref='DESIGN.md section 4, C15',
     note='Trusted: rustc MIR, the driver, the supported value sets transcribed from the file-format spec (DESIGN.md Appendix A). Pixel-ratio rule decided by abstract evaluation of the guard over value classes {0,1,2,255}^2. Does not decide which error variant is returned.',
     technique='static analysis: MIR switch-table extraction, dominance / must-pass-through, Result-propagation (error discipline) dataflow')
 
 CLAIMED['C10'] = dict(
     category='other',
-    text='The attachment rule is a finite state machine written as match arms; an effect analysis over rustc MIR (writes through &mut ParseInfo with local callees inlined) reads the whole transition table off the code - per chunk kind the context effect and payload origin, per context the entity written and nothing else - and compares it with the table the property states, together with: no other writer of the state, initial state None, text/colour read only under their flag bits, accessors return the written field, validation moves entities without dropping user data. Every transition is decided for every arm, hence for every chunk sequence.',
+    text='The attachment rule is a finite state machine written as match arms; an effect analysis over rustc MIR (writes through &mut ParseInfo with local callees inlined) reads the whole transition table off the code - per chunk kind the context effect and payload origin, per context the entity written and nothing else - and compares it with the table the property states, together with: no other writer of the state (and none in parse_frame outside the dispatch arms), initial state None, every entity constructed with an empty user-data slot, the tag vector never reordered between decoding and attachment, text/colour read only under their flag bits, accessors return the written field, validation moves entities without dropping user data. Every transition is decided for every arm, hence for every chunk sequence.',
     design_ref='DESIGN.md section 4, C10',
     note='Trusted: rustc MIR, the driver, documented behaviour of Vec::len/push/get_mut. The oracle table is transcribed from the property statement (DESIGN.md C10).',
     technique='static analysis: MIR effect (write-set) analysis per match arm + provenance + dominance')
 
 CLAIMED['C01'] = dict(
     category='other',
-    text='Static layout + provenance analysis over rustc MIR. For each of the 14 decoder bodies every non-error CFG path is enumerated (loops unrolled 0/1/2, reader-taking helpers inlined; nothing is executed), giving labelled sequences of reader-primitive calls that must equal the sequences generated from a hand-transcribed table of the Aseprite file-format spec (widths, signedness, order, optional parts under the right flag bit, repeat counts from the right field). Every stored struct field must then have exactly one origin - the read bound to the like-named spec field - through value-preserving casts, every public getter must return that stored field, no call may reorder layers/tags/slices/keys, frame durations are stored and read at the frame index, every chunk code reaches its own decoder on its own payload, name lookups scan forward. Decides the structural clauses for all inputs and chunk programs; does not decide that values survive std (UTF-8, HashMap).',
+    text='Static layout + provenance analysis over rustc MIR. For each of the 14 decoder bodies every non-error CFG path is enumerated (loops unrolled 0/1/2, reader-taking helpers inlined; nothing is executed), giving labelled sequences of reader-primitive calls that must equal the sequences generated from a hand-transcribed table of the Aseprite file-format spec (widths, signedness, order, optional parts under the right flag bit, repeat counts from the right field). Every stored struct field must then have exactly one origin - the read bound to the like-named spec field - through value-preserving casts, every public getter must return that stored field, no call may reorder layers/tags/slices/keys, frame durations are stored and read at the frame index, every chunk code reaches its own decoder on its own payload, chunk framing rejects exactly the sizes below the 6-byte header or beyond the bytes left in the frame (nothing tighter), palette entries are decoded as under C11 (ids, cumulative legacy offsets, scaling), name lookups scan forward and the layer iterator defines no cursor-moving method besides next(). Decides the structural clauses for all inputs and chunk programs; does not decide that values survive std (UTF-8, HashMap).',
     design_ref='DESIGN.md section 4, C01',
     note='Trusted: rustc MIR, the driver, tables/spec_layout.json (the oracle, transcribed from the spec document linked by the crate), std container contracts. Loop unrolling bound 2, helper inlining depth 3 (deepest real chain 3).',
     technique='static analysis: bounded CFG path enumeration of read schedules vs spec table + MIR provenance (origin) dataflow')
 
 CLAIMED['C11'] = dict(
     category='other',
-    text='Static check of the three palette decoders and of index validation over rustc MIR: layouts of the new and both legacy palette chunks equal the spec table (path enumeration); entry id = first + loop index and is the insertion key; legacy offsets are cumulative across packets, count byte 0 means 256, alpha is 255; the 0x0004/0x0011 decoders are siblings differing exactly in scale_6bit_to_8bit (which rejects >= 64); effect analysis of parse_frame gives palette precedence (new unconditional, legacy only under is_none, no other writer); every Pixels::Indexed construction is dominated by a successful whole-slice validate_indexed_pixels on the same data under Some(palette), and cel and tileset pixels reach the sprite only through that validation. Decides these clauses for all inputs; the numeric 6->8 bit map is recorded, not asserted.',
+    text='Static check of the three palette decoders and of index validation over rustc MIR: layouts of the new and both legacy palette chunks equal the spec table (path enumeration); entry id = first + loop index and is the insertion key; legacy offsets are cumulative across packets, count byte 0 means 256, alpha is 255; the 0x0004/0x0011 decoders are siblings differing exactly in scale_6bit_to_8bit (which rejects >= 64); effect analysis of parse_frame gives palette precedence (new unconditional, legacy only under is_none, no other writer); every Pixels::Indexed construction is dominated by a successful whole-slice validate_indexed_pixels on the same data under Some(palette), and cel and tileset pixels reach the sprite only through that validation. no assignment to ParseInfo.palette exists outside the three palette chunk arms (no invented fallback palette); the two scaling end points the statement names (0 -> 0, 63 -> 255) are decided by constant propagation of those two literals through the call-free result term with u8 wrapping. Decides these clauses for all inputs; the interior of the 6->8 bit map is not part of the statement and not decided.',
     design_ref='DESIGN.md section 4, C11',
-    note='Trusted: rustc MIR, the driver, spec table, IntMap/HashMap semantics. The 0->0, 63->255 value fact of the scaling formula is not decided (value-level).',
+    note='Trusted: rustc MIR, the driver, spec table, IntMap/HashMap semantics. A scaling formula outside the constant propagation (table lookup, call) is recorded as undecided, not reported.',
     technique='static analysis: read-schedule path enumeration vs spec + sibling comparison + effect analysis + must-pass-through dominance')
 
 CLAIMED['C02'] = dict(
@@ -81,7 +81,7 @@ CLAIMED['C06'] = dict(
 
 CLAIMED['C07'] = dict(
     category='other',
-    text='Non-interference decided statically over rustc MIR: every read the spec marks ignorable is consumed (layout equality for all 14 decoders) and its value has no use (def-use); every chunk decoder receives only the byte slice of its own chunk and builds a private reader, the chunk buffer is exactly chunk_size - 6 bytes; cel-extra/mask/path arms write no parser state and the colour-profile arm writes only a field nobody reads; the chunk count is new_chunks unless 0, else old_chunks; the pixel-ratio refusal accepts zero components (truth table by abstract evaluation); no reader call after the frames loop and the header file size is unused; palette precedence; raw/zlib cel decoders are siblings differing only in take_bytes vs unzip; cels stored by slot with duplicates rejected. Partial: shows absence of flows that could make observations differ; zlib level independence is flate2\'s contract.',
+    text='Non-interference decided statically over rustc MIR: every read the spec marks ignorable is consumed (layout equality for all 14 decoders) and its value has no use (def-use); every chunk decoder receives only the byte slice of its own chunk and builds a private reader, the chunk buffer is exactly chunk_size - 6 bytes; cel-extra/mask/path arms write no parser state and the colour-profile arm writes only a field nobody reads; the chunk count is new_chunks unless 0, else old_chunks; the pixel-ratio refusal accepts zero components (truth table by abstract evaluation); no reader call after the frames loop, the header file size is unused and the two public loaders hand their input to the one parser without looking at it (callee whitelist); each frame stores its own duration unconditionally (the deprecated header speed cannot show); palette precedence; raw/zlib cel decoders are siblings differing only in take_bytes vs unzip; cels stored by slot with duplicates rejected. Partial: shows absence of flows that could make observations differ; zlib level independence is flate2\'s contract.',
     design_ref='DESIGN.md section 4, C07',
     note='Trusted: rustc MIR, the driver, spec table (which fields are ignorable), flate2.',
     technique='static analysis: def-use (taint) of ignorable reads, effect analysis per match arm, sibling comparison, abstract evaluation of guards')
@@ -95,13 +95,13 @@ CLAIMED['C17'] = dict(
 
 CLAIMED['C13'] = dict(
     category='other',
-    text='For a strict prefix to load, a read that should hit end-of-input must be satisfied short or its failure ignored - both are shapes. Static who-may-call + error-discipline analysis over the loader cone: the input is touched only via read_exact-family calls or read_to_end on a take()/zlib wrapper (take_bytes compares the delivered length); the outer-reader functions use only exact primitives; the frames and chunk loops are 0..count with a ?-propagated parse call on every iteration and no exit but exhaustion or Err; header/frame/chunk layouts equal the spec so every byte before the end of the last frame is covered by an exact read; no Result in the cone is dropped. Decided for all inputs and cut points; the final inference (counts precede their data) is recorded reasoning.',
+    text='For a strict prefix to load, a read that should hit end-of-input must be satisfied short or its failure ignored - both are shapes. Static who-may-call + error-discipline analysis over the loader cone: the input is touched only via read_exact-family calls or read_to_end on a take()/zlib wrapper (take_bytes compares the delivered length); a take() bound lets the whole requested length through; the public loaders add no peeking, sizing or prefetching in front of the parser (callee whitelist); the outer-reader functions use only exact primitives; the frames and chunk loops are 0..count with a ?-propagated parse call on every iteration and no exit but exhaustion or Err; header/frame/chunk layouts equal the spec so every byte before the end of the last frame is covered by an exact read; no Result in the cone is dropped. Decided for all inputs and cut points; the final inference (counts precede their data) is recorded reasoning.',
     design_ref='DESIGN.md section 4, C13',
     note='Trusted: rustc MIR, the driver, the documented contract of read_exact / byteorder read_* (UnexpectedEof on short input).',
     technique='static analysis: who-may-call on the input over the call-graph cone, loop-exit classification, Result-propagation dataflow')
 CLAIMED['C14'] = dict(
     category='other',
-    text='read_exact/read_to_end are specified to loop over short reads and retry Interrupted, so a parser touching its input only through them is insensitive to reader chunking; the check decides the shapes that make this argument valid, for all schedules: who-may-call on the input over the whole loader cone; no Seek/BufRead call and no branch on io::ErrorKind; IoError is constructed only in From<io::Error>::from from its argument, every io::Result is converted through it (map_err(to_ase) / ? / into()) and never formatted into another variant; Error::source returns Some(err) exactly for IoError; read_file and read reach the single read_aseprite; no dropped Result.',
+    text='read_exact/read_to_end are specified to loop over short reads and retry Interrupted, so a parser touching its input only through them is insensitive to reader chunking; the check decides the shapes that make this argument valid, for all schedules: who-may-call on the input over the whole loader cone; no Seek/BufRead call and no branch on io::ErrorKind; IoError is constructed only in From<io::Error>::from from its argument, every io::Result is converted through it (map_err(to_ase) / ? / into()) and never formatted into another variant; Error::source returns Some(err) exactly for IoError; read_file and read reach the single read_aseprite and do nothing else with the input (callee whitelist); a buffering wrapper must own its input (one over a borrowed reader loses its read-ahead); no dropped Result.',
     design_ref='DESIGN.md section 4, C14',
     note='Trusted: rustc MIR, the driver, the std::io::Read contract (also assumed of user readers that override read_exact). Readers violating that contract are out of scope.',
     technique='static analysis: who-may-call + error-discipline dataflow + provenance of error construction')
@@ -129,7 +129,7 @@ CLAIMED['C05'] = dict(
 
 CLAIMED['C16'] = dict(
     category='proof',
-    text='Clause 1 (Send + Sync) is proof-level: a witness crate applies fn req<T: Send + Sync>() to AsepriteFile and every exported value and handle type; the obligations are discharged by rustc\'s trait solver, with compile_fail twins (Rc wrapper -> E0277, &mut return -> E0308) showing the witnesses can fail. Clauses 2-6 are static rules over the MIR/ADT/HIR facts: the field-type closure of every exported type has no UnsafeCell/Cell/RefCell/Once*/Mutex/RwLock/Atomic*/Rc/raw pointer/dyn; no static mut, thread_local or user-written unsafe; every exported method other than the loaders takes self by shared reference or value and none returns &mut; the loader and accessor cones use no ambient input (time/env/thread/process/fs except File::open in read_file) and every hash-map iteration is on a reviewed list; every arithmetic trap/wrap site outside blend.rs is discharged and every truncating cast has its operand proven in range (interval, guard or named invariant). One truncation defect (layer ids beyond 65535) was repaired by a fix: commit.',
+    text='Clause 1 (Send + Sync) is proof-level: a witness crate applies fn req<T: Send + Sync>() to AsepriteFile and every exported value and handle type; the obligations are discharged by rustc\'s trait solver, with compile_fail twins (Rc wrapper -> E0277, &mut return -> E0308) showing the witnesses can fail. Clauses 2-6 are static rules over the MIR/ADT/HIR facts: the field-type closure of every exported type has no UnsafeCell/Cell/RefCell/Once*/Mutex/RwLock/Atomic*/Rc/raw pointer/dyn; no static mut, thread_local or user-written unsafe; every exported method other than the loaders takes self by shared reference or value and none returns &mut; the loader and accessor cones use no ambient input (time/env/thread/process/fs except File::open in read_file), the process-wide log level decides nothing but whether a record is emitted (the region between a log-level test and its post-dominator assigns no result and writes no parser state), every hash-map iteration is on a reviewed list; every arithmetic trap/wrap site outside blend.rs is discharged and every truncating cast has its operand proven in range (interval, guard or named invariant). One truncation defect (layer ids beyond 65535) was repaired by a fix: commit.',
     design_ref='DESIGN.md section 4, C16',
     note='Only clause 1 is proof-level (trusted base: rustc trait solver, std auto-trait impls); clauses 2-6 are level other (static rules; trusted: rustc MIR, the driver, Rust aliasing rules). Not decided: blend.rs channel casts (C17), float determinism across targets, collection sizes bounded only by the input size fitting u32.',
     technique='static analysis: compile-time type witnesses (rustc) + type-closure walk + HIR scan (static/unsafe) + who-may-call + interval domain for casts')
